@@ -755,3 +755,204 @@ Proof. reflexivity. Qed.
 Example ex_auto_transform_name_clash :
   build_model_s [ex_sigma; mkVar "sigma_transformed" false false false false false false] = inl EDupName.
 Proof. reflexivity. Qed.
+
+(* ------------------------------------------------------------------------------------------ *)
+(* 6. chained transformations                                                                   *)
+(* ------------------------------------------------------------------------------------------ *)
+Lemma lawful_identity_on : forall X : R -> Prop, lawful bIdentity X X.
+Proof.
+  intro X. constructor; cbn; intros; auto.
+  - ex_d 1.
+    + auto_derive; [ exact I | reflexivity ].
+    + lra.
+    + rewrite Rabs_R1, ln_1. reflexivity.
+  - lra.
+Qed.
+
+(* each link's bijector maps its set onto the set of the next older variable *)
+Inductive lawful_list : list bijector -> (R -> Prop) -> (R -> Prop) -> Prop :=
+| ll_nil : forall X, lawful_list [] X X
+| ll_cons : forall b older T M X,
+    lawful b T M -> lawful_list older M X -> lawful_list (b :: older) T X.
+
+Lemma lawful_compose : forall bs T X, lawful_list bs T X -> lawful (compose bs) T X.
+Proof.
+  intros bs T X H. induction H as [X | b older T M X Hb Ho IH]; cbn.
+  - apply lawful_identity_on.
+  - exact (lawful_chain _ _ _ _ _ Hb IH).
+Qed.
+
+Lemma last_default : forall (l : list R) x d d', last (x :: l) d = last (x :: l) d'.
+Proof.
+  induction l as [ | y l IH]; intros x d d'; [reflexivity | ].
+  change (last (y :: l) d = last (y :: l) d'). apply IH.
+Qed.
+
+Lemma last_images : forall bs t, last (images bs t) t = fwd (compose bs) t.
+Proof.
+  induction bs as [ | b older IH]; intro t; [reflexivity | ].
+  cbn [images compose Chain fwd]. specialize (IH (fwd b t)).
+  destruct (images older (fwd b t)) as [ | y l] eqn:E.
+  - cbn in IH |- *. exact IH.
+  - change (last (y :: l) t = fwd (compose older) (fwd b t)).
+    rewrite <- IH. apply last_default.
+Qed.
+
+Lemma images_in_sets : forall bs T X, lawful_list bs T X -> forall t, T t -> X (last (images bs t) t).
+Proof.
+  intros bs T X H t Ht. rewrite last_images.
+  exact (law_fwd_dom _ _ _ (lawful_compose bs T X H) t Ht).
+Qed.
+
+Section ChainedProofs.
+  Context {P A : Type}.
+  Variable D : P -> dist_inst.
+
+  (* a link whose argument resolves to b builds TransformedDistribution(d, Invert b) *)
+  Lemma link_tdist_resolved : forall (l : @link A) d a b,
+    resolve (fun _ : unit => d) (l_spec l) tt a = Some b ->
+    link_tdist l d a = Some (mkTD d (Invert b)).
+  Proof.
+    intros [pa bs] d a b Hres. unfold link_tdist; cbn [l_path l_spec] in *.
+    destruct pa; destruct bs as [b' | Bc | ]; cbn in Hres |- *;
+      try (inversion Hres; subst; reflexivity); rewrite Hres; reflexivity.
+  Qed.
+
+  Lemma chain_compute : forall (ls : list (@link A)) p args bs,
+    chain_resolve D ls p args = Some bs ->
+    exists dk, chain_dist D ls p args = Some dk
+      /\ (forall t, d_logpdf dk t = d_logpdf (D p) (fwd (compose bs) t) + fldj (compose bs) t)
+      /\ (forall t, chain_up D ls p args t = Some (images bs t))
+      /\ (forall v0, chain_init D ls p args v0 = Some (inv (compose bs) v0)).
+  Proof.
+    induction ls as [ | l older IH]; intros p args bs Hres.
+    - destruct args; cbn in Hres; [ | discriminate]. inversion Hres; subst bs.
+      exists (D p). cbn. repeat split; intros; try reflexivity. lra.
+    - destruct args as [ | a args']; cbn in Hres; [discriminate | ].
+      destruct (chain_dist D older p args') as [d | ] eqn:Hd; [ | discriminate].
+      destruct (chain_resolve D older p args') as [bs' | ] eqn:Hr; [ | discriminate].
+      destruct (resolve (fun _ : unit => d) (l_spec l) tt a) as [b | ] eqn:Hb; [ | discriminate].
+      cbn in Hres. inversion Hres; subst bs. clear Hres.
+      destruct (IH p args' bs' Hr) as [d' [Hd' [Hlp [Hup Hin]]]].
+      rewrite Hd in Hd'. inversion Hd'; subst d'. clear Hd'.
+      exists (dist_of_td (mkTD d (Invert b))).
+      split; [ | split; [ | split]].
+      + cbn. rewrite Hd. rewrite (link_tdist_resolved l d a b Hb). reflexivity.
+      + intro t. cbn. unfold td_log_prob, transformed_logpdf. cbn. rewrite Hlp. lra.
+      + intro t. cbn. rewrite Hd.
+        destruct (paths_compute (fun _ : unit => d) (l_path l) (l_spec l) tt a 0 tt a t b Hb) as [_ Hv].
+        rewrite Hv. rewrite Hup. reflexivity.
+      + intro v0. cbn. rewrite Hin, Hd.
+        apply (paths_init (fun _ : unit => d) (l_path l) (l_spec l) tt a _ b Hb).
+  Qed.
+
+  (* if some link cannot resolve its bijector (default requested, none available) the chain fails *)
+  Lemma chain_none : forall (ls : list (@link A)) p args t,
+    List.length ls = List.length args -> chain_resolve D ls p args = None ->
+    chain_logpdf D ls p args t = None.
+  Proof.
+    induction ls as [ | l older IH]; intros p args t Hlen Hres.
+    - destruct args; cbn in *; discriminate.
+    - destruct args as [ | a args']; cbn in Hlen; [discriminate | ]. injection Hlen as Hlen.
+      unfold chain_logpdf. cbn in Hres |- *.
+      destruct (chain_dist D older p args') as [d | ] eqn:Hd; [ | reflexivity].
+      destruct (chain_resolve D older p args') as [bs' | ] eqn:Hr.
+      + destruct (resolve (fun _ : unit => d) (l_spec l) tt a) as [b | ] eqn:Hb; [discriminate | ].
+        destruct l as [pa bs]. unfold link_tdist; cbn [l_path l_spec] in *.
+        destruct pa; destruct bs as [b' | Bc | ]; cbn in Hb |- *; try discriminate; rewrite Hb; reflexivity.
+      + specialize (IH p args' t Hlen Hr). unfold chain_logpdf in IH. rewrite Hd in IH. discriminate.
+  Qed.
+
+  Theorem chained_change_of_variables : forall (ls : list (@link A)) p args bs T X t,
+    chain_resolve D ls p args = Some bs -> lawful_list bs T X -> T t ->
+    exists d, is_derive (fwd (compose bs)) t d /\ d <> 0
+      /\ chain_logpdf D ls p args t = Some (d_logpdf (D p) (fwd (compose bs) t) + ln (Rabs d))
+      /\ chain_up D ls p args t = Some (images bs t)
+      /\ last (images bs t) t = fwd (compose bs) t
+      /\ X (fwd (compose bs) t).
+  Proof.
+    intros ls p args bs T X t Hres Hlaw Ht.
+    pose proof (lawful_compose bs T X Hlaw) as Hc.
+    destruct (law_fldj _ _ _ Hc t Ht) as [d [Hd [Hnz Hf]]].
+    destruct (chain_compute ls p args bs Hres) as [dk [Hdk [Hlp [Hup _]]]].
+    exists d. split; [exact Hd | split; [exact Hnz | split; [ | split; [apply Hup | split]]]].
+    - unfold chain_logpdf. rewrite Hdk. cbn. rewrite Hlp, Hf. reflexivity.
+    - apply last_images.
+    - exact (law_fwd_dom _ _ _ Hc t Ht).
+  Qed.
+
+  Theorem chained_value_preserved : forall (ls : list (@link A)) p args bs T X v0,
+    chain_resolve D ls p args = Some bs -> lawful_list bs T X -> X v0 ->
+    exists t0, chain_init D ls p args v0 = Some t0 /\ T t0 /\ t0 = inv (compose bs) v0
+      /\ chain_up D ls p args t0 = Some (images bs t0)
+      /\ last (images bs t0) t0 = v0.
+  Proof.
+    intros ls p args bs T X v0 Hres Hlaw Hx.
+    pose proof (lawful_compose bs T X Hlaw) as Hc.
+    destruct (chain_compute ls p args bs Hres) as [dk [_ [_ [Hup Hin]]]].
+    exists (inv (compose bs) v0).
+    split; [apply Hin | split; [exact (law_inv_dom _ _ _ Hc v0 Hx) | split; [reflexivity | split; [apply Hup | ]]]].
+    rewrite last_images. exact (law_fwd_inv _ _ _ Hc v0 Hx).
+  Qed.
+End ChainedProofs.
+
+(* structural side of a chain: only the newest variable keeps a distribution and carries the
+   parameter flag of the original; every older variable is weak without distribution *)
+Theorem chained_flags : forall ks v l,
+  chain_s ks v = inr l ->
+  exists front newest, l = front ++ [newest]
+    /\ List.length front = List.length ks
+    /\ v_parameter newest = v_parameter v
+    /\ (ks <> [] -> v_has_dist newest = true /\ v_weak newest = false /\ v_auto newest = false)
+    /\ List.Forall (fun w => v_parameter w = false /\ v_has_dist w = false /\ v_weak w = true /\ v_auto w = false) front.
+Proof.
+  induction ks as [ | [vp k] rest IH]; intros v l H; cbn in H.
+  - inversion H; subst. exists [], v. cbn.
+    split; [reflexivity | split; [reflexivity | split; [reflexivity | split; [ | constructor]]]].
+    intro C. exfalso. apply C. reflexivity.
+  - destruct (if vp then var_transform_s k v else gb_transform_s k v) as [e | [v' tv]] eqn:Ht; [discriminate | ].
+    destruct (chain_s rest tv) as [e | l'] eqn:Hc; [discriminate | ]. inversion H; subst l. clear H.
+    assert (Hf : flags_ok v v' tv).
+    { apply (flags k v v' tv). destruct vp; [left | right]; exact Ht. }
+    destruct Hf as [Hp [Hp' [Hd' [Hw' [Hdt [Hwt [_ [_ [_ [_ [Ha' Hat]]]]]]]]]]].
+    destruct (IH tv l' Hc) as [front [newest [El [Elen [Epar [Enew Efa]]]]]].
+    exists (v' :: front), newest. subst l'. cbn.
+    split; [reflexivity | split; [congruence | split; [congruence | split]]].
+    + intros _. destruct rest as [ | kk rest'].
+      * cbn in Hc. inversion Hc as [E]. destruct front as [ | f1 front']; cbn in E.
+        -- inversion E; subst. auto.
+        -- destruct front'; cbn in E; discriminate.
+      * apply Enew. discriminate.
+    + constructor; auto.
+Qed.
+
+Example ex_chained : 
+  exists d, is_derive (fwd (compose [bScale 2; bExp])) (1 / 4) d /\ d <> 0
+    /\ chain_logpdf dGamma [mkLink PVar (@BInst unit (bScale 2)); mkLink PVar (BInst bExp)] (2, 1, ln 1) [tt; tt] (1 / 4)
+       = Some (gamma_logpdf 2 1 (ln 1) (exp (2 * (1 / 4))) + ln (Rabs d))
+    /\ chain_up dGamma [mkLink PVar (@BInst unit (bScale 2)); mkLink PVar (BInst bExp)] (2, 1, ln 1) [tt; tt] (1 / 4)
+       = Some [2 * (1 / 4); exp (2 * (1 / 4))]
+    /\ last [2 * (1 / 4); exp (2 * (1 / 4))] (1 / 4) = exp (2 * (1 / 4))
+    /\ pos_R (exp (2 * (1 / 4))).
+Proof.
+  assert (Hl : lawful_list [bScale 2; bExp] all_R pos_R).
+  { apply (ll_cons _ _ all_R all_R pos_R); [apply lawful_scale; lra | ].
+    apply (ll_cons _ _ all_R pos_R pos_R); [apply lawful_exp | apply ll_nil]. }
+  exact (chained_change_of_variables dGamma
+           [mkLink PVar (@BInst unit (bScale 2)); mkLink PVar (BInst bExp)] (2, 1, ln 1) [tt; tt]
+           [bScale 2; bExp] all_R pos_R (1 / 4) eq_refl Hl I).
+Qed.
+
+(* a default transformation on top of an Exp transformation of a Gamma variable resolves to
+   tfp's Chain([Invert(Exp), Softplus]) *)
+Example ex_chained_default :
+  chain_resolve dGamma [mkLink PVar (@BDefault unit); mkLink PVar (BInst bExp)] (2, 1, ln 1) [tt; tt]
+  = Some [Chain (Invert bExp) bSoftplus; bExp].
+Proof. reflexivity. Qed.
+
+Example ex_chained_flags :
+  chain_s [(true, KInst false); (true, KCls true)] ex_sigma
+  = inr [mkVar "sigma" false false false true false false;
+         mkVar "sigma_transformed" false false false true false false;
+         mkVar "sigma_transformed_transformed" true false true false false true].
+Proof. reflexivity. Qed.
